@@ -1,6 +1,12 @@
 #[cfg(not(feature = "build"))]
 fn main() {}
 
+/// Cap on the LL(k) production stack (parol's depth counter), as in
+/// `veryl-parser`: without it deeply nested input overflows the native stack
+/// in the parser and again when the tree is dropped.
+#[cfg(feature = "build")]
+const MAX_PARSING_DEPTH: usize = 1152;
+
 #[cfg(feature = "build")]
 fn main() {
     use parol::parol_runtime::Report;
@@ -44,6 +50,7 @@ fn main() {
             .actions_output_file("veryl_grammar_trait.rs")
             .user_type_name("VerylGrammar")
             .user_trait_module_name("veryl_grammar")
+            .max_parsing_depth(MAX_PARSING_DEPTH)
             .trim_parse_tree()
             .generate_parser()
         {
